@@ -407,6 +407,12 @@ func rootSymbol(e Expr) (*Symbol, *BlockMember) {
 }
 
 func (c *checker) requireWritable(e Expr, what string) {
+	if cd, ok := e.(*Cond); ok && cd.LV {
+		// C++ (MSL): c ? a : b with two l-values of one type is an l-value
+		c.requireWritable(cd.A, what)
+		c.requireWritable(cd.B, what)
+		return
+	}
 	b := e.base()
 	if !b.LV {
 		c.invalid(b.Pos, "lvalue", "%s is not an l-value", what)
@@ -513,6 +519,11 @@ func (c *checker) assign(x *Assign) Expr {
 func (c *checker) index(x *Index) Expr {
 	x.X = c.value(x.X)
 	x.I = c.value(x.I)
+	if h, ok := c.rules.(indexRules); ok {
+		if r := h.index(c, x); r != nil {
+			return r
+		}
+	}
 	it := x.I.base().T
 	if it != tInt && it != tUint {
 		c.invalid(x.I.base().Pos, "type", "index must be a scalar integer, got %s", it)
